@@ -5,6 +5,7 @@ import (
 	"errors"
 	"fmt"
 	"net"
+	"strings"
 	"testing"
 	"time"
 
@@ -22,6 +23,9 @@ type c15Case struct {
 	Dir    int    `json:"dir"`    // 0: client writes
 	Writes []int  `json:"writes"` // write sizes
 	Bufs   []int  `json:"bufs"`   // read buffer sizes, cycled
+	// Refreshes (mailbox only): the transfer runs on the (1+Refreshes)-th
+	// connection of the session.
+	Refreshes int `json:"refreshes,omitempty"`
 }
 
 type c15Outcome struct {
@@ -29,6 +33,8 @@ type c15Outcome struct {
 	smallBuf  bool // some read buffer was smaller than the pending record
 	oversize  bool
 	zeroWrite bool
+	// notEstablished: a refreshed connection did not come up
+	notEstablished bool
 }
 
 // streamTransfer writes the given sizes on w and reads them back on r with the
@@ -181,12 +187,35 @@ func runC15(t *testing.T, c *c15Case) (out c15Outcome) {
 				out.violation = err.Error()
 				return
 			}
+			for i := 0; i < c.Refreshes; i++ {
+				if !p.Refresh(60 * time.Second) {
+					// (establishing a later connection is C11's subject)
+					out.notEstablished = true
+					p.Close()
+					return
+				}
+			}
 			var w, r net.Conn = p.C, p.S
 			if c.Dir == 1 {
 				w, r = p.S, p.C
 			}
 			o := streamTransfer(c.Kind, w, r, c.Seed, c.Writes, c.Bufs)
 			out.violation, out.zeroWrite, out.oversize = o.violation, o.zeroWrite, o.oversize
+			if c.Refreshes > 0 && (strings.Contains(o.violation, "Read returned error") || strings.Contains(o.violation, "failed:")) {
+				// A later connection of a session can be killed right after
+				// its handshake by what the previous one left in the relay
+				// streams (a second SYN reply, a FIN): the recorded C10
+				// findings; Client.Dial / Server.Accept then simply build the
+				// next one (C11). A connection that fails visibly carries no
+				// stream to judge.
+				out.violation, out.notEstablished = "", true
+			}
+			if debugMbox && o.violation != "" {
+				_, events := p.R.Snapshot()
+				for _, e := range events {
+					fmt.Printf("DBG relay %v %s %x.. %s len=%d %s\n", e.T, e.Op, e.Stream[len(e.Stream)-2:], e.Who, e.Len, e.Note)
+				}
+			}
 			p.Close()
 		})
 		if bo.Panic != "" && !bo.Deadlock && out.violation == "" {
@@ -234,6 +263,9 @@ func genC15(t *rapid.T, kind string) *c15Case {
 		menu = []int{97, 1000, 4096, 32767, 32768, 32769, 65535, 65536, 70000}
 	}
 	c.Bufs = rapid.SliceOfN(rapid.SampledFrom(menu), 1, 6).Draw(t, "bufs")
+	if kind == "mailbox" {
+		c.Refreshes = rapid.SampledFrom([]int{0, 0, 1, 2}).Draw(t, "refreshes")
+	}
 	return c
 }
 
@@ -264,6 +296,12 @@ func testC15(t *testing.T, unit, kind string) {
 		if o.oversize {
 			labels = append(labels, "oversize_write_rejected")
 		}
+		if c.Refreshes > 0 && !o.notEstablished {
+			labels = append(labels, "later_connection_of_the_session")
+		}
+		if o.notEstablished {
+			labels = append(labels, "later_connection_not_established")
+		}
 		rec.Case(o.smallBuf, fmt.Sprintf("%+v", *c), labels...)
 		if o.smallBuf && rec.WantSample() {
 			rec.Sample(c)
@@ -274,6 +312,66 @@ func testC15(t *testing.T, unit, kind string) {
 		}
 	})
 	rec.Done()
+}
+
+// sweepLengths is every length up to 1100 and the neighbourhood of every power
+// of two up to the record limit.
+func sweepLengths(max int) []int {
+	var l []int
+	for i := 0; i <= 1100; i++ {
+		l = append(l, i)
+	}
+	for e := 11; e <= 17; e++ {
+		for d := -2; d <= 2; d++ {
+			if v := (1 << e) + d; v <= max {
+				l = append(l, v)
+			}
+		}
+	}
+	return l
+}
+
+// TestC15LengthSweep: one session per connection type and direction through
+// which every write length of the sweep passes once, read back with a cycle of
+// buffer sizes. A path that only misbehaves for a few particular lengths (an
+// internal buffer boundary, a fast path) cannot hide from it.
+func TestC15LengthSweep(t *testing.T) {
+	const unit = "TestC15LengthSweep"
+	rec := stats.New(t, "C15", unit)
+	var rc c15Case
+	if stats.ReplayCase(unit, &rc) {
+		if o := runC15(t, &rc); o.violation != "" {
+			rec.Violation(o.violation, "c15", rc)
+			t.Fatal(o.violation)
+		}
+		return
+	}
+	if stats.ReplayMode() {
+		t.Skip()
+	}
+	nviol := 0
+	for _, kind := range []string{"grpc", "tcp", "mailbox"} {
+		for dir := 0; dir < 2; dir++ {
+			max := 65535
+			if kind == "tcp" {
+				max = 140000
+			}
+			c := &c15Case{Kind: kind, Seed: stats.Seed() + uint64(dir), Dir: dir, Writes: sweepLengths(max),
+				Bufs: []int{4096, 1, 70000, 7, 1000, 32768, 3}}
+			rec.Current("c15", c)
+			o := runC15(t, c)
+			rec.CaseN(int64(len(c.Writes)), int64(len(c.Writes)), fmt.Sprintf("sweep/%s/%d", kind, dir), "length_sweep_"+kind)
+			if o.violation != "" {
+				nviol++
+				rec.Violation(o.violation, "c15", c)
+			}
+		}
+	}
+	rec.Sample(map[string]any{"enumerated": "every write length 0..1100 and 2^k +-2 up to the record limit, once per connection type and direction", "buffers": []int{4096, 1, 70000, 7, 1000, 32768, 3}})
+	rec.Done()
+	if nviol > 0 {
+		t.Fatalf("%d violations", nviol)
+	}
 }
 
 func TestC15Grpc(t *testing.T)    { testC15(t, "TestC15Grpc", "grpc") }
